@@ -6,7 +6,9 @@ import (
 
 	"pgregory.net/rapid"
 
+	"verif/internal/ast"
 	"verif/internal/corpus"
+	"verif/internal/gen"
 	"verif/internal/h"
 )
 
@@ -16,7 +18,7 @@ var hostile = []string{`\p{`, `(?<`, `{2147483647}`, `[z-a]`, `\x{110000}`, `$10
 	`(?(1)`, `(?(n)`, `{0}`, `{2}`, `{2,}`, `??`, `*?`, `(?x)`, `(?-i)`, `(?n:`, `\e`, `\a`, `\07`, `\400`, `\p{IsGreek}`, `\pL`, `[\d-z]`, `[a-\w]`, `(?:`, `\Q`, `\E`, `$`, `^`}
 
 func genPattern(t *rapid.T) string {
-	switch rapid.IntRange(0, 5).Draw(t, "patsrc") {
+	switch rapid.IntRange(0, 7).Draw(t, "patsrc") {
 	case 0:
 		return corpus.Patterns[rapid.IntRange(0, len(corpus.Patterns)-1).Draw(t, "corpus")].P
 	case 1:
@@ -38,6 +40,26 @@ func genPattern(t *rapid.T) string {
 		return string(p)
 	case 2:
 		return string(rapid.SliceOfN(rapid.Byte(), 0, 24).Draw(t, "rawpat"))
+	case 4, 5:
+		// structured patterns from the shared generators (reach engine states byte soup rarely reaches)
+		cfg := gen.Cfg{Depth: 3, Full: true, Inline: "imsnx", Magic: true}
+		var root *ast.Node
+		if rapid.Bool().Draw(t, "accelpat") {
+			root = gen.Accel(t, cfg)
+		} else {
+			root = gen.Pattern(t, cfg)
+		}
+		gen.Resolve(t, root, ast.Opts{}, false, cfg)
+		return ast.Print(root, ast.PrintOpts{})
+	case 3:
+		// very small patterns from the most interaction-prone fragments
+		small := []string{".", "\xff", "a", "b", "\\b", "^", "$", "*", "+", "?", "|", "(", ")", "\uFFFD", "é", "[", "]", "\\G", "\\z", "..", "a*", "\\d"}
+		n := rapid.IntRange(1, 3).Draw(t, "nsmall")
+		s := ""
+		for i := 0; i < n; i++ {
+			s += rapid.SampledFrom(small).Draw(t, "small")
+		}
+		return s
 	default:
 		n := rapid.IntRange(1, 8).Draw(t, "npieces")
 		s := ""
@@ -61,7 +83,7 @@ func genArgs(t *rapid.T) Args {
 	default:
 		n := rapid.IntRange(0, 6).Draw(t, "ninp")
 		for i := 0; i < n; i++ {
-			a.Input = append(a.Input, rapid.SampledFrom([]string{"a", "b", "ab", "0", " ", "\n", "é", "😀", "\xff", "\x00", "aaaaaaaaaaaaaaaa", "A", "_", "-"}).Draw(t, "inpiece")...)
+			a.Input = append(a.Input, rapid.SampledFrom([]string{"a", "b", "ab", "0", " ", "\n", "é", "😀", "\xff", "\xff", "\x80", "\uFFFD", "\x00", "aaaaaaaaaaaaaaaa", "A", "_", "-"}).Draw(t, "inpiece")...)
 		}
 	}
 	a.Rep = rapid.SampledFrom([]string{"", "x", "$1", "${1}", "$10", "${", "$", "${n}", "$+", "$_", "$`$'", "$99999999999", "${999999999999}", "$$", "\xff$&"}).Draw(t, "rep")
